@@ -19,6 +19,7 @@ EXPLANATION = (
     "and the peak trace is selected on the third axis; the swap rule is peak_val > 0 and ratio <= 1.5. Extremum correctness "
     "and the half-peak crossing points are NOT decided."
     ' (D4 as built) the kept sample sets are evaluated on the three-valued relation of t to the peak index {t < p, t == p, t > p} for NaN stores and np.where forms alike. (D6) counts accumulated along the time axis in an 8-bit integer are refused unless the accumulated mask is one-hot.'
+    ' (D2 as built) `M.any()` in a test is an emptiness test when M is a boolean mask; on row labels / positions it asks whether a label is non-zero and is reported.'
 )
 ASSUMPTIONS = [
     "arrays are (waveform, time, trace) or (waveform, time): axis 0 runs across waveforms",
